@@ -261,8 +261,12 @@ def gotran_to_myokit(ode: ODE, time_component="engine", time_unit="s") -> myokit
             return None
         return unit.replace("**", "^")
 
-    # First we need to add all variables to the model
-    global_var_map = {sp.Symbol("time"): sp.Symbol(f"{time_component}.time")}
+    # First we need to add all variables to the model.
+    # Expressions of imported models use plain symbols, while expressions of
+    # models loaded from .ode files use the symbols of the atoms (which carry
+    # assumptions and therefore differ from plain symbols of the same name)
+    time_symbol = sp.Symbol(f"{time_component}.time")
+    global_var_map = {sp.Symbol("time"): time_symbol, sp.Symbol("t"): time_symbol, ode.t: time_symbol}
     for component in ode.components:
         if component.name == time_component:
             comp = model[time_component]
@@ -274,17 +278,20 @@ def gotran_to_myokit(ode: ODE, time_component="engine", time_unit="s") -> myokit
             var = comp.add_variable(state.name)
             var.set_unit(to_myokit_unit(state.unit_str))
             global_var_map[sp.Symbol(state.name)] = sp.Symbol(var.qname())
+            global_var_map[state.symbol] = sp.Symbol(var.qname())
 
         for parameter in component.parameters:
             var = comp.add_variable(parameter.name)
             var.set_unit(to_myokit_unit(parameter.unit_str))
             var.set_rhs(parameter.value)
             global_var_map[sp.Symbol(parameter.name)] = sp.Symbol(var.qname())
+            global_var_map[parameter.symbol] = sp.Symbol(var.qname())
 
         for intermediate in component.intermediates:
             var = comp.add_variable(intermediate.name)
             var.set_unit(to_myokit_unit(intermediate.unit_str))
             global_var_map[sp.Symbol(intermediate.name)] = sp.Symbol(var.qname())
+            global_var_map[intermediate.symbol] = sp.Symbol(var.qname())
 
     sympy_reader = myokit.formats.sympy.SymPyExpressionReader(model=model)
     # Then we can add expressions
